@@ -456,6 +456,8 @@ func runDeadcode(enc *json.Encoder, rng *rand.Rand, nfiles, size int, tmp string
 		shared *ruleguard.RunnerState
 		pool   *statePool
 		prev   *hutil.Target // the file that ran on the shared state last
+		// ... and the judge of its reports: every report of a *dead / *live group against the flag of its node
+		prevJudge func(reps []hReport, how string) (probes map[int]string, mismatch []string, bad string)
 	}
 	dpool, dropped := usableDisturbers()
 	if len(dpool) < 16 {
@@ -507,9 +509,9 @@ func runDeadcode(enc *json.Encoder, rng *rand.Rand, nfiles, size int, tmp string
 			obs := dcObs{K: "dc", Name: name, Config: cfg.name, Kinds: map[string]int{}}
 			// engine verdicts on the probes: "dead" / "live" by the group of the plain probe rules that reported it; every
 			// report of a disturber rule that ends in Deadcode() / !Deadcode() is judged by the flag of its node
-			verdict := func(state *ruleguard.RunnerState, how string) (map[int]string, []hReport, string) {
-				reps, _, pmsg := runOnce(cfg.e, t, t.File, 0, state, -1)
+			judge := func(reps []hReport, how string) (map[int]string, []string, string) {
 				out := map[int]string{}
+				var mism []string
 				for _, r := range reps {
 					if !isDead(r.Group) && !isLive(r.Group) {
 						if isDist(r.Group) {
@@ -518,18 +520,21 @@ func runDeadcode(enc *json.Encoder, rng *rand.Rand, nfiles, size int, tmp string
 						continue
 					}
 					if isDist(r.Group) {
-						want, known := byRange[[2]int{r.Pos, r.End}]
+						want, known := judgeByRange(byRange, r.Pos, r.End)
 						if !known {
 							obs.Kinds["reports:unjudged"]++
 							continue
 						}
 						obs.Kinds["reports:disturber+deadcode"]++
+						if strings.Contains(r.Group, "_ls_") {
+							obs.Kinds["reports:list-rule+deadcode"]++
+						}
 						if want != isDead(r.Group) {
 							txt := string(t.Src[r.Pos:r.End])
 							if len(txt) > 50 {
 								txt = txt[:50] + "..."
 							}
-							obs.Mismatch = append(obs.Mismatch, fmt.Sprintf("rule %s (line %d of its file) reported %q at line %d with the %s state: the node is %s",
+							mism = append(mism, fmt.Sprintf("rule %s (line %d of its file) reported %q at line %d with the %s state: the node is %s",
 								r.Group, r.Line, txt, 1+strings.Count(string(t.Src[:r.Pos]), "\n"), how, map[bool]string{true: "dead", false: "live"}[want]))
 						}
 						continue
@@ -548,7 +553,35 @@ func runDeadcode(enc *json.Encoder, rng *rand.Rand, nfiles, size int, tmp string
 						out[lab] = v
 					}
 				}
+				return out, mism, ""
+			}
+			verdict := func(state *ruleguard.RunnerState, how string) (map[int]string, []hReport, string) {
+				reps, _, pmsg := runOnce(cfg.e, t, t.File, 0, state, -1)
+				out, mism, bad := judge(reps, how)
+				if bad != "" {
+					return nil, nil, bad
+				}
+				obs.Mismatch = append(obs.Mismatch, mism...)
 				return out, reps, pmsg
+			}
+			// the probes of this file by label: expected verdicts (for runs that deliver only some of the reports)
+			probeWant := map[int]string{}
+			for _, tn := range order {
+				if call, ok := tn.n.(*ast.CallExpr); ok {
+					if id, ok := call.Fun.(*ast.Ident); ok && id.Name == "probe" && len(call.Args) == 1 {
+						lab, _ := strconv.Atoi(call.Args[0].(*ast.BasicLit).Value)
+						probeWant[lab] = map[bool]string{true: "dead", false: "live"}[expDead[tn.id]]
+					}
+				}
+			}
+			judgeAll := func(reps []hReport, how string) (map[int]string, []string, string) {
+				out, mism, bad := judge(reps, how)
+				for lab, v := range out {
+					if v != probeWant[lab] {
+						mism = append(mism, fmt.Sprintf("probe(%d): expected %s, reported as %q with the %s state", lab, probeWant[lab], v, how))
+					}
+				}
+				return out, mism, bad
 			}
 			vFresh, freshReps, p2 := verdict(nil, "fresh")
 			// the shared state has seen the earlier files of this engine; now and then the run right before this one is
@@ -568,11 +601,30 @@ func runDeadcode(enc *json.Encoder, rng *rand.Rand, nfiles, size int, tmp string
 				}
 				if len(deadIdx) > 0 {
 					at := deadIdx[rng.Intn(len(deadIdx))]
-					_, panicked, _ := runOnce(cfg.e, pt, pt.File, 0, cfg.shared, at)
+					areps, panicked, amsg := runOnce(cfg.e, pt, pt.File, 0, cfg.shared, at)
+					obs.Poison = fmt.Sprintf("a run over %s on the same state whose Report callback panics at report #%d (%s at offset %d, inside a dead branch, function %s)",
+						filepath.Base(filepath.Dir(pt.Path)), at, preps[at].Group, preps[at].Pos, preps[at].Func)
 					if panicked {
 						obs.DeadPanics++
-						obs.Poison = fmt.Sprintf("a run over %s on the same state, aborted by a panic of the Report callback at report #%d (%s at offset %d, inside a dead branch, function %s); the panic was recovered",
-							filepath.Base(filepath.Dir(pt.Path)), at, preps[at].Group, preps[at].Pos, preps[at].Func)
+						obs.Poison += "; the run ended with that panic, which the caller recovered"
+					} else {
+						obs.Poison += fmt.Sprintf("; Run returned (%q) after %d reports", amsg, len(areps))
+					}
+					// whatever that run delivered -- before the panic and, should the engine carry on after it, behind it -- is
+					// judged like the reports of any run: a *dead / *live rule by the flag of its node
+					pj := judgeAll
+					if pt != t {
+						pj = cfg.prevJudge
+					}
+					if pj != nil {
+						_, mism, _ := pj(areps, "shared")
+						for _, m := range mism {
+							obs.Mismatch = append(obs.Mismatch, "in the run with the panicking Report callback (the callback panicked at report #"+strconv.Itoa(at)+" of "+strconv.Itoa(len(areps))+" delivered; Run: "+map[bool]string{true: "panic", false: "returned " + strconv.Quote(amsg)}[panicked]+"): "+m)
+						}
+						obs.Kinds["reports:judged-in-panicking-runs"] += len(areps)
+						if len(areps) > at+1 {
+							obs.Kinds["reports:delivered-after-a-callback-panic"] += len(areps) - at - 1
+						}
 					}
 				}
 			}
@@ -608,7 +660,7 @@ func runDeadcode(enc *json.Encoder, rng *rand.Rand, nfiles, size int, tmp string
 					}
 				}
 			}
-			cfg.prev = t
+			cfg.prev, cfg.prevJudge = t, judgeAll
 			sigs := map[string]bool{}
 			for _, tn := range order {
 				call, ok := tn.n.(*ast.CallExpr)
